@@ -2,6 +2,7 @@ package main
 
 import (
 	"bytes"
+	"crypto/md5"
 	"fmt"
 	"mime/multipart"
 	"net/http"
@@ -420,13 +421,20 @@ func runC09(tier string, seed uint64) {
 				for _, m := range []string{"4", "5", "1000000", "9223372036854775807"} {
 					corpus = append(corpus, Req{Method: "GET", Path: "/" + singleBucketName + "/mp?uploadId=" + up + "&part-number-marker=" + m})
 				}
-				for _, pn := range []string{"-1", "-9223372036854775808", "0", "2", "99999"} {
+				for _, pn := range []string{"-1", "-9223372036854775808", "0", "1", "2", "3", "4", "5", "6", "99999", "10000", "10001"} {
 					corpus = append(corpus, Req{Method: "POST", Path: "/" + singleBucketName + "/mp?uploadId=" + up,
 						Body: []byte("<CompleteMultipartUpload><Part><PartNumber>" + pn + "</PartNumber><ETag>x</ETag></Part></CompleteMultipartUpload>")})
 				}
 			}
 			// object listings page by page over groups that hold delete markers: every small page size x
 			// prefix / delimiter / marker, V1 and V2
+			for _, up := range f.uploads[:min(1, len(f.uploads))] {
+				// a valid first entry followed by every small part number (held, in a gap, one past the highest, far beyond)
+				for pn := 0; pn <= 6; pn++ {
+					corpus = append(corpus, Req{Method: "POST", Path: "/" + singleBucketName + "/mp?uploadId=" + up,
+						Body: []byte(fmt.Sprintf("<CompleteMultipartUpload><Part><PartNumber>1</PartNumber><ETag>\"%x\"</ETag></Part><Part><PartNumber>%d</PartNumber><ETag>x</ETag></Part></CompleteMultipartUpload>", md5.Sum([]byte("part-1")), pn))})
+				}
+			}
 			for n := 1; n <= 6; n++ {
 				for _, extra := range []string{"&delimiter=%2F", "&delimiter=%2F&prefix=g", "&delimiter=%2F&prefix=g%2F", "&delimiter=%2F&marker=g%2Fa", "&delimiter=%2F&marker=d%2Fe",
 					"&list-type=2&delimiter=%2F", "&list-type=2&delimiter=%2F&start-after=d%2Fe", "&list-type=2&delimiter=%2F&prefix=g2", "&prefix=g", "&delimiter=a", "&list-type=2&delimiter=g"} {
